@@ -110,6 +110,12 @@ class Vars(VarsBasic):
                 return new_vars
             else:
                 raise ValueError('Cannot multiply Vars object by another one with different variables!')
+        elif isinstance(other, np.ndarray):
+            if new_vars.total_size != other.reshape(-1, ).shape[0]:
+                raise ValueError('Incompatible array size')
+            else:
+                new_vars.array[:] = new_vars.array * other.reshape(-1, )
+                return new_vars
         else:
             raise TypeError(f'Input type {type(other)} invalid')
 
@@ -121,6 +127,12 @@ class Vars(VarsBasic):
         elif isinstance(other, Vars):
             new_vars.array[:] = other.array * new_vars.array
             return new_vars
+        elif isinstance(other, np.ndarray):
+            if new_vars.total_size != other.reshape(-1, ).shape[0]:
+                raise ValueError('Incompatible array size')
+            else:
+                new_vars.array[:] = other.reshape(-1, ) * new_vars.array
+                return new_vars
         else:
             raise TypeError(f'Input type {type(other)} invalid')
 
